@@ -97,6 +97,7 @@ class Translator:
         self.tmp = 0
         self.defined = set()      # python locals currently defined (in scope)
         self.local_alias = dict(kernel.alias)  # python local -> python chain (resolved aliases)
+        self.heap_alias = {}      # python local -> ('heappush'|'heappop', heap variable)
 
     def fresh(self):
         self.tmp += 1
@@ -236,6 +237,8 @@ class Translator:
         raise Unsupported('truthiness of a tuple')
 
     def cond(self, e):
+        if isinstance(e, ast.Name) and e.id in self.k.seqs and e.id in self.defined:
+            return f'(nonempty {e.id})'
         b, t, ty = self.expr(e)
         if b:
             raise Unsupported('raising expression in a condition')
@@ -259,6 +262,11 @@ class Translator:
                 for t in s.targets:
                     for n in self.target_names(t):
                         add(n)
+                h = self.heap_call(s.value)
+                if h:
+                    add(h[1])
+            elif isinstance(s, ast.Expr) and self.heap_call(s.value):
+                add(self.heap_call(s.value)[1])
             elif isinstance(s, ast.AugAssign):
                 for n in self.target_names(s.target):
                     add(n)
@@ -266,12 +274,32 @@ class Translator:
                 for n in self.assigned(s.body) + self.assigned(s.orelse):
                     add(n)
             elif isinstance(s, (ast.While, ast.For)):
-                if isinstance(s, ast.For):
-                    for n in self.target_names(s.target):
-                        add(n)
+                local = self.target_names(s.target) if isinstance(s, ast.For) else []
                 for n in self.assigned(s.body):
-                    add(n)
+                    if n not in local:
+                        add(n)
         return out
+
+    def heap_call(self, e):
+        """('heappush'|'heappop'|'heapify', heap variable, args) when e is a heap effect, else None"""
+        if not isinstance(e, ast.Call) or e.keywords:
+            return None
+        ch = chain_of(e.func)
+        if ch in self.heap_alias:
+            kind, hv = self.heap_alias[ch]
+            return kind, hv, e.args
+        if ch == 'heapq.heapify' and len(e.args) == 1 and isinstance(e.args[0], ast.Name):
+            return 'heapify', e.args[0].id, []
+        return None
+
+    @staticmethod
+    def partial_heap_alias(e):
+        """functools.partial(heapq.heappush, heap) -> ('heappush', 'heap')"""
+        if isinstance(e, ast.Call) and chain_of(e.func) == 'functools.partial' and len(e.args) == 2 and not e.keywords:
+            f = chain_of(e.args[0])
+            if f in ('heapq.heappush', 'heapq.heappop') and isinstance(e.args[1], ast.Name):
+                return f.split('.')[1], e.args[1].id
+        return None
 
     @staticmethod
     def target_names(t):
@@ -310,6 +338,40 @@ class Translator:
             if len(s.targets) != 1:
                 raise Unsupported('chained assignment')
             names = self.target_names(s.targets[0])
+            pa = self.partial_heap_alias(s.value)
+            if pa and len(names) == 1:
+                if pa[1] not in self.defined:
+                    raise Unsupported('heap alias on an undefined list')
+                self.heap_alias[names[0]] = pa
+                return self.block(rest, k_text, yields)
+            hc = self.heap_call(s.value)
+            if hc and hc[0] == 'heappop' and not hc[2]:
+                hv = hc[1]
+                tmp = self.fresh()
+                saved = set(self.defined)
+                self.defined |= set(names)
+                body = self.block(rest, k_text, yields)
+                self.defined = saved | set(names)
+                pat = names[0] if len(names) == 1 else "'(" + ', '.join(names) + ')'
+                return f"do '({tmp}, {hv}) <- heappop {hv} ;;\nlet {pat} := {tmp} in\n{body}"
+            if isinstance(s.value, ast.ListComp) and len(names) == 1:
+                lc = s.value
+                if len(lc.generators) != 1 or lc.generators[0].ifs or lc.generators[0].is_async \
+                        or not isinstance(lc.generators[0].target, ast.Name) or not isinstance(lc.generators[0].iter, ast.Name):
+                    raise Unsupported('list comprehension shape')
+                var = lc.generators[0].target.id
+                src = lc.generators[0].iter.id
+                if src not in self.defined:
+                    raise Unsupported(f'comprehension over undefined {src!r}')
+                saved = set(self.defined)
+                self.defined.add(var)
+                b, t, ty = self.expr(lc.elt)
+                self.defined = saved
+                if b:
+                    raise Unsupported('raising expression in a comprehension')
+                self.defined.add(names[0])
+                body = self.block(rest, k_text, yields)
+                return f'let {names[0]} := map (fun {var} => {t}) {src} in\n{body}'
             # alias binding `doubleprime = Objects.doubleprime` etc.
             if len(names) == 1:
                 ch = chain_of(s.value) if isinstance(s.value, (ast.Name, ast.Attribute)) else None
@@ -405,6 +467,19 @@ class Translator:
             pat = self.pat(vs)
             xpat = self.pat(names)
             return self.wrap(binds, f'do {pat} <- for_fold\n(fun {pat} {xpat} =>\n{inner})\n{seq} {self.tup(vs)} ;;\n{body}')
+        if isinstance(s, ast.Expr) and self.heap_call(s.value):
+            kind, hv, args = self.heap_call(s.value)
+            if hv not in self.defined:
+                raise Unsupported('heap operation on an undefined list')
+            body_rest = None
+            if kind == 'heapify':
+                body_rest = self.block(rest, k_text, yields)
+                return f'let {hv} := heapify {hv} in\n{body_rest}'
+            if kind == 'heappush' and len(args) == 1:
+                b, t, ty = self.expr(args[0])
+                body_rest = self.block(rest, k_text, yields)
+                return self.wrap(b, f'let {hv} := heappush {hv} {t} in\n{body_rest}')
+            raise Unsupported(f'heap call {kind}')
         if isinstance(s, ast.Expr) and isinstance(s.value, ast.Yield):
             if not yields:
                 raise Unsupported('yield outside a generator kernel')
@@ -457,7 +532,7 @@ def indent(text):
 
 HEADER = '''(* GENERATED by tools/py2v.py from %s -- do not edit *)
 From Coq Require Import ZArith List Bool.
-From Concepts Require Import Base.Res Base.PyInt.
+From Concepts Require Import Base.Res Base.PyInt Base.Heap.
 Import ListNotations.
 Open Scope Z_scope.
 
@@ -501,6 +576,13 @@ KERNELS = {
                       'self.lattice._mapping[]': ('mapping_get', 'res_nat')},
                uses_fuel=False)
         for name in ['join', 'meet']
+    ],
+    'GenCommon': [
+        Kernel('iterunion', 'concepts/algorithms/common.py', 'iterunion',
+               [('sortkey', 'nat -> Z'), ('next_concepts', 'nat -> list nat'), ('concepts', 'list nat')],
+               'list nat',
+               attrs={'concepts': 'concepts'}, seqs=['heap', 'concepts'],
+               calls={'sortkey': ('sortkey', 'pure'), 'for:next_concepts': ('next_concepts', 'pure')}),
     ],
     'GenLindig': [
         Kernel('neighbors', 'concepts/algorithms/lindig.py', 'neighbors',
